@@ -3,10 +3,26 @@ ZOO = lib("upipe-modules", only=["upipe_idem.c","upipe_skip.c","upipe_htons.c","
 QUEUE = lib("upipe-modules", only=["upipe_queue.c","upipe_queue_sink.c","upipe_queue_source.c"])
 TS = lib("upipe-ts", only=["upipe_ts_align.c","upipe_ts_sync.c","upipe_ts_check.c"])
 TARGET = dict(
-    rule="tbd",
-    assumptions=["tbd"],
+    rule=("tape-decoded history over a chain of 1-6 pipes drawn from idem, skip, delay, setattr, probe_uref, setflowdef, setrap, htons, match_attr, dup, genaux (a pipe with a request of its own) and "
+          "ts_align (a bin built on helper_bin_input / helper_bin_output) ending in two recording tails (policy: throw to its probe / hold and provide later / unhandled); executor 'queue' cuts the chain "
+          "with qsink ~> qsrc on two harness-stepped loops; the harness registers and unregisters up to 8 requests of the five types (uref_mgr, flow_format, ubuf_mgr, uclock, sink_latency; flow-format "
+          "dictionaries tagged with request id and generation) at any pipe, changes outputs (other tail, another pipe, NULL, back), sets flow definitions (which rebuilds the inner pipes of the bin), "
+          "provides lodged requests at the tails (once, repeatedly, after unregistration on the far side of the queue), steps either loop, releases pipes, lets a callback re-enter (register another request); "
+          "service probes uprobe_uref_mgr / uprobe_ubuf_mem / uprobe_uclock are present or absent per case. non-trivial = an output was replaced while a request was registered and an answer arrived "
+          "afterwards; distinct by hash of the decoded history"),
+    assumptions=["reference model of the request lists of upipe_helper_output / helper_bin_input and of the out-of-band messages of the queue pipes (harness/C12_requests.c), written from the helper documentation",
+                 "fixture: recording probes and tails, fake event loops (engine/pipefix.c, fake_upump.c); stand-in bitstream headers for ts_align's inner pipes (ts_sync, ts_check)",
+                 "lodged requests are identified by type and tagged dictionary, never by pointer order"],
     execs=[dict(name="inthread", harness="harness/C12_requests.c", repo=LIBUPIPE + ZOO + TS, engine=PIPEFIX, cflags=["-DC12_QUEUE=0"], share=0.5),
            dict(name="queue", harness="harness/C12_requests.c", repo=LIBUPIPE + ZOO + TS + QUEUE, engine=PIPEFIX, cflags=["-DC12_QUEUE=1"], share=0.5)],
-    quick=dict(cases=12000, budget=40), thorough=dict(cases=300000, budget=600),
+    quick=dict(cases=12000, budget=40, floor=2000), thorough=dict(cases=300000, budget=600, floor=20000),
 )
-META = dict(technique="tbd", text="tbd", design_ref="DESIGN.md section 6, C12", note="tbd")
+META = dict(
+    technique="model-based stateful property testing (rapidcheck tapes -> C executor over real pipes, two harness-stepped event loops for the queue variant) against a reference model of request registration and answers, under ASan",
+    text="Generated histories of register / unregister / set_output / set_flow_def / provide / loop step / release over chains of pass-through pipes, a pipe with its own request, a bin, and a thread queue. After every operation "
+         "(and at loop quiescence) the model predicts and the check compares: the requests lodged at each tail (exactly one per registered upstream request that reaches it, right type and dictionary, none stale), the provide_request "
+         "events thrown per probe when nobody downstream handles a request, the callbacks on the original requests (exactly one per answer, carrying the provided object, none after unregister), the pipe's own request being answered; "
+         "end-of-case audit for leaks. Sampling.",
+    design_ref="DESIGN.md section 6, C12",
+    note="bins other than ts_align (same control idiom: filters, dvbcsa, hls, rtp_demux, id3v2, worker) are not exercised; allocation failures are not generated",
+)
